@@ -305,9 +305,9 @@ def main(tier):
             st[k] += st2[k]
         st["per_depth_b2"] = st2["per_depth"]
     else:
-        st = e2.explore(run, list(e2.SEEDS), D, B, letters="RCIMW", state_check=state_check, phase_ops=True, analysis_op=True)
+        st = e2.explore(run, list(e2.SEEDS), D, B, letters="RCIMW", state_check=state_check, phase_ops=True, analysis_op=True, max_states=300000)
     if tier != "quick":
-        st2 = e2.explore(run, ["mux", "freed"], 4, 1, letters="RIM", state_check=state_check, phase_ops=False)
+        st2 = e2.explore(run, ["mux", "freed"], 4, 1, letters="RIM", state_check=state_check, phase_ops=False, max_states=150000)
         for k in ("states", "transitions", "rejected", "states_via_cc", "states_via_dc", "state_checks"):
             st[k] += st2[k]
         st["per_depth_d4b1"] = st2["per_depth"]
